@@ -246,6 +246,7 @@ func TestVerifWireAPI(t *testing.T) {
 		servers[k] = vwStartAPI(t, p, cc, mt, lg)
 	}
 	statuses := map[int]int{}
+	lockLeaks := 0
 	r.each([]string{"api"}, func(row *vwRow) {
 		f := row.F
 		srv := servers[f["clientconf"]]
@@ -285,6 +286,15 @@ func TestVerifWireAPI(t *testing.T) {
 					// a panic after the status line was written
 					res = vwResult{Outcome: "panic", Panic: "panic after status " + strconv.Itoa(st), Stack: elog, Site: vwSite(elog)}
 				}
+			}
+			if res.Outcome != "hang" && res.Outcome != "panic" && !regprocessor.VerifSelectorLockFree(p) {
+				lockLeaks++
+				if lockLeaks <= 3 {
+					res = vwResult{Outcome: "hang", Detail: "the request was answered (" + res.Detail + ") but the registrar still holds its phantom-selector lock: the next reload and every registration after it block",
+						Site: "regprocessor.selectorMutex"}
+				}
+				// (the servers keep this processor; a read lock left behind does not keep later requests from being answered
+				// as long as no reload is waiting, so the run goes on)
 			}
 			r.record(row, variant, res)
 		}
